@@ -83,7 +83,8 @@ Proof. unfold has_score; simpl. destruct s; split; congruence. Qed.
 Lemma scorable_In cand scores j s :
   In (j, s) (scorable cand scores) <-> In (j, s) scores /\ In j cand /\ s <> None.
 Proof.
-  unfold scorable. rewrite filter_In, andb_true_iff, memZ_In, has_score_some. simpl. tauto.
+  unfold scorable. rewrite filter_In. change (if has_score (j, s) then memZ (fst (j, s)) cand else false) with (has_score (j, s) && memZ (fst (j, s)) cand).
+  rewrite andb_true_iff, memZ_In, has_score_some. simpl. tauto.
 Qed.
 
 Lemma in_map_fst (l : scored) i : In i (map fst l) <-> exists s, In (i, s) l.
